@@ -176,7 +176,7 @@ E2ECase(tree, inp, tp, off) ==
       st |-> fin.st, out |-> fin.out, rd |-> fin.rd, evs |-> MapLines(fin.evs, r.lines),
       report |-> [n \in 1..Len(rep) |-> [rep[n] EXCEPT !.line = r.lines[rep[n].line]]]]
 E2ETapes == {<<>>} \cup { Mixed(64, ab[1], ab[2]) : ab \in {<<3, 7>>, <<5, 11>>, <<17, 2>>, <<29, 4>>, <<31, 8>>, <<37, 16>>, <<41, 1>>, <<43, 6>>} }
-Noisy == [i \in 1..64 |-> 17]          \* every statement closed by a comment that spans three line breaks (17 % 9 = 8)
+Noisy == [i \in 1..64 |-> 30]          \* every statement closed by a comment that spans three line breaks (30 % 11 = 8)
 E2ETapesFew == {<<>>, Mixed(64, 5, 11)}
 (* picking a case is cheap and sequential; expanding it (render, run, lint) is a separate step so that all workers share it *)
 (* a family tree that no text denotes would be dropped silently by the ProgramOK filter: refuse to start instead *)
